@@ -98,6 +98,7 @@ type Exec struct {
 	timerFired bool
 	curPanic   *panicV // the panic that is unwinding while deferred calls run
 	loggers    map[string]*Cell
+	onces      map[*Cell]bool
 	vipers     map[*Cell]*viper.Viper
 	hostDone   chan struct{}
 }
